@@ -24,7 +24,7 @@ type limits struct {
 	thoroughBounds        []int
 }
 
-var perProperty = map[string]limits{"C28": {8000, 120000, []int{0, 1, 2, 3}}}
+var perProperty = map[string]limits{"C28": {8000, 60000, []int{0, 1, 2, 3}}}
 
 // additional sequential-history enumerations that run in worker processes next to the schedule exploration
 var sequentialFns = map[string]func(run *ev.Run) (wait func()){"C28": c28.StartSequential}
